@@ -50,6 +50,8 @@ class Case:
 
 def gen_lead(rng):
     return rng.choice(['', '\n', 'é\n  ', '<b>t</b>\n\t', '<!-- c -->', 'line1\nline2\n   ', '日本 ', '<i a="1"\n b="2">x</i>',
+                       # characters str.splitlines() takes for line boundaries (template lines end at \n only)
+                       'a\x0cb\n ', 'x\u2028y ', 'n\x85m\n\t', 'p\x1cq\x1d\n',
                        # valid constructs whose compilation opens and closes internal state before the fault is met
                        '<span i18n:translate=""></span>\n', '<span i18n:translate=""/><em i18n:translate=""><!--! c --></em> ',
                        '<u metal:define-macro="lead"><span i18n:translate=""></span></u>\n ',
@@ -286,6 +288,22 @@ def run(ctx):
                 res = ('KNOWN-drift', res[1])
         except Exception as e:
             res = ('non-template-error', '%s: %s' % (type(e).__name__, str(e).split('\n')[0][:100]))
+        if res is None and '\n' in src and not src.startswith('<?xml') and rng.random() < .4:
+            # the same template saved with CRLF / CR line endings: outside XML mode it is read as the LF text, and the
+            # error describes that text (token, offset, line and column as for the LF version)
+            le = rng.choice(['\r\n', '\r'])
+            try:
+                PageTemplate(src.replace('\n', le), **cfg)
+                res = ('no-error-with-%s-line-endings' % ('CRLF' if le == '\r\n' else 'CR'), None)
+            except TemplateError as e:
+                ctx.mon('line-ending-variants')
+                problem = monitors.check_template_error(e, src)
+                woff = off + (len(bad) - len(bad.lstrip()))
+                if problem or str(e.token) != bad.strip() or e.offset != woff or tuple(e.location) != line_col(src, woff):
+                    res = ('misaligned-with-%s-line-endings' % ('CRLF' if le == '\r\n' else 'CR'),
+                           problem or 'token %r at %d %r, expected %r at %d %r' % (str(e.token), e.offset, tuple(e.location), bad.strip(), woff, line_col(src, woff)))
+            except Exception as e:
+                res = ('non-template-error', '%s: %s' % (type(e).__name__, str(e).split('\n')[0][:100]))
         ctx.case(key=('expr', kind, feats, 'bad:' + bad[:3]), nontrivial=True,
                  sample={'source': src, 'planted': bad, 'offset': off, 'result': res} if i < 2 else None)
         if res is not None:
